@@ -8,7 +8,7 @@ from e1 import E1
 
 FILES = ['src/simd/dispatch.c', 'src/simd/detect.c', 'src/simd/x86/sse_ops.c', 'src/simd/x86/avx2_ops.c',
          'src/simd/x86/avx512_ops.c', 'src/core/bitpack.c', 'src/encoding/byte_stream_split.c', 'src/reader/page_reader.c']
-BUDGET = {'quick': 840, 'thorough': 2400}
+BUDGET = {'quick': 840, 'thorough': 3500}
 H = 'harness/e1/c15_simd.c'
 SRC = {'sse': 'src/simd/x86/sse_ops.c', 'avx2': 'src/simd/x86/avx2_ops.c', 'avx512': 'src/simd/x86/avx512_ops.c'}
 ALLSRC = [SRC['sse'], SRC['avx2'], SRC['avx512']]
